@@ -377,7 +377,7 @@ class C14(Prop):
         "combine_sum_conserves", "rebin_nan_default_marks_unoccupied", "rebin_nan_default_conserves_total",
         "combine_sum_conserves_optional", "rebin_then_combine_conserves", "hist_rebin_combine_conserves")]
     PARTIAL = {}
-    RULE = ("case kinds: coll (rows from/to/cycles or range/mean; derived quantities; scale/shift by scalar, numpy scalar, 0-d array, one value per cycle as ndarray / list, or Series; source collective and operand unchanged afterwards, the same call twice on the same object gives the same result), "
+    RULE = ("case kinds: coll (rows from/to/cycles or range/mean; derived quantities; scale/shift by scalar, numpy scalar, 0-d array, one value per cycle as ndarray / list, or Series; source collective and operand unchanged afterwards, the same call twice on the same object gives the same result; ONE accessor object kept while its from/to frame is changed in place - cycles column added / overwritten / deleted, loads overwritten - answers like a fresh accessor, also for range_histogram / histogram with and without axis), "
             "hist (range_histogram / histogram / recorder histogram with edges, class count as int / numpy integer / 0-d array, [ex, ey] / [nx, ny], IntervalIndex/IntervalArray right- or left-closed, intervals from two edge arrays whose shared edges differ in the last bit "
             "(iv2: must be ACCEPTED as a gap-free binning, /repo 4183ee2; a shared edge different from 0.0 is moved by one ulp, a shared edge AT 0.0 - inserted into the edges of about half of the cases that cross zero - is replaced by rounding noise of 2**-54 of the larger neighbour, which the code accepts since /repo 125ac37, adjacency judged relative to the class width), interval bins with real gaps / overlaps (iv_gap / iv_overlap: must be "
             "rejected with ValueError, /repo 5cb9f77), one class, zero-width class, values exactly on edges or one ulp "
@@ -1477,9 +1477,70 @@ class C14(Prop):
                 return (f"{case['op']} with the {case['operand']['t']} operand {case['operand'].get('v')} asked a second time of {what} gives another "
                         f"answer: row {i} (amplitude, mean, upper, lower, cycles) first {tuple(x[i] for x in (a2, m2, u2, l2, c2))}, "
                         f"then {tuple(x[i] for x in second)}", "input-modified")
+        if case["form"] != "rm":
+            return self._kept_accessor(case)
+        return None
+
+    # -------------------------------------------------------------- ONE accessor object kept across in-place changes of its frame
+    def _kept_accessor(self, case, bins=None):
+        """`lc = df.load_collective` on a from/to frame is kept while the caller changes `df` in place: (a) a cycles column is
+        added, (b) overwritten, (c) from/to are overwritten, (d) the cycles column is deleted.  After every step the kept object
+        must answer like a FRESH accessor on the same frame (which the other clauses tie to the model).  A range/mean frame is
+        converted to an internal from/to frame at construction (a snapshot by design), so this is about from/to frames."""
+        rows = case["rows"]
+        n = len(rows)
+        df = make_frame(dict(case, cycles=False, form="ft"))
+        lc = df.load_collective
+        axis = case.get("axis")
+
+        def snapshot(acc):
+            out = {}
+            for k in ("cycles", "amplitude", "meanstress", "R", "upper", "lower"):
+                out[k] = [float(v) for v in getattr(acc, k).to_numpy(dtype=float)]
+            if bins is not None:
+                for k in ("range_histogram", "histogram"):
+                    for ax in ([None, axis] if axis else [None]):
+                        key = k + ("" if ax is None else f"(axis={ax!r})")
+                        try:
+                            r = (getattr(acc, k)(bins_arg(bins), ax) if ax else getattr(acc, k)(bins_arg(bins))).to_pandas()
+                            out[key] = ([str(i) for i in r.index], [float(v) for v in r.to_numpy(dtype=float)])
+                        except Exception as e:          # noqa: BLE001  (kept and fresh object must then fail alike)
+                            out[key] = "raises " + type(e).__name__
+            return out
+        snapshot(lc)        # the object has been used before the frame changes
+        c1 = [float(r[2]) for r in rows] if case.get("cycles") else [float(1 + (i % 3)) for i in range(n)]
+        c2 = [2.0 * c + 1.0 for c in reversed(c1)]
+        fr2 = [float(r[1]) for r in rows]
+        to2 = [float(r[0]) + 1.0 for r in rows]
+
+        def set_loads():
+            df["from"] = fr2
+            df["to"] = to2
+        steps = [("a `cycles` column was added in place", lambda: df.__setitem__("cycles", c1)),
+                 ("the `cycles` column was overwritten in place", lambda: df.__setitem__("cycles", c2)),
+                 ("`from` / `to` were overwritten in place", set_loads),
+                 ("the `cycles` column was deleted in place", lambda: df.__delitem__("cycles"))]
+        for what, change in steps:
+            try:
+                change()
+            except Exception as e:      # noqa: BLE001
+                raise HarnessError(f"harness: in-place change of the frame failed: {type(e).__name__}: {e}") from e
+            kept, fresh = snapshot(lc), snapshot(df.load_collective)
+            for k in fresh:
+                if kept[k] != fresh[k]:
+                    return (f"after {what} the accessor object that was created before reports {k} = {str(kept[k])[:160]}, "
+                            f"a fresh df.load_collective on the same frame {str(fresh[k])[:160]}", "accessor-stale-after-in-place-change")
         return None
 
     def _oracle_hist(self, case):
+        res = self._oracle_hist_main(case)
+        b = case["bins"]
+        if res is None and not case.get("exh") and case["which"] != "rec" and b["t"] not in ("iv_gap", "iv_overlap"):
+            self._count("bins", "kept-accessor:" + case["which"] + (":axis" if case.get("axis") else ""))
+            res = self._kept_accessor(case, b)
+        return res
+
+    def _oracle_hist_main(self, case):
         b = case["bins"]
         which = case["which"]
         try:
